@@ -27,6 +27,7 @@ AT_SBOM = "application/vnd.zzverif.sbom.v1"
 # 429/500/reset/trunc are retried, resetall = the connection fails on every attempt
 FATAL = ["503", "404", "401", "resetall"]
 TRANSIENT = ["429", "500", "reset", "trunc"]
+RETRYABLE = ["429", "500", "reset"]     # absorbed by reghttp on every request class when fewer than the retry limit
 
 
 def load_jsonl(fn):
@@ -67,7 +68,8 @@ class Engine:
     def scn(self, shape, pair, origin, **kw):
         self.n += 1
         s = {"id": "%s-%d" % (origin, self.n), "shape": shape, "pair": pair, "mount": 1, "headdigest": 1,
-             "refapi_src": 1, "refapi_tgt": 1, "extup": 0, "opts": {}, "init": [], "tag0": "none",
+             "refapi_src": 1, "refapi_tgt": 1, "extup": 0, "cancel202": self.rng.choice([0, 1]), "opts": {}, "init": [],
+             "tag0": "none",
              "conc": 16, "mode": "random", "seed": self.rng.randrange(1 << 30), "origin": origin}
         s.update(kw)
         return s
@@ -237,6 +239,44 @@ class Engine:
                                  dict(b, kind=self.rng.choice(FATAL + TRANSIENT))],
                          mode=self.rng.choice(modes), seed=self.rng.randrange(1 << 30))
                 out.append(s)
+        return out
+
+    def slow_requests(self, base_pairs, origin, classes=None):
+        """Per-request latency pushed to the extreme: for every request (side, class, name) of a fault-free run
+        one scenario in which exactly that request is served only when nothing else can move (mode delay)."""
+        out = []
+        for sc, tr in base_pairs:
+            seen = set()
+            for p in self.positions(tr):
+                k = (p["host"], p["class"], p["n"])
+                if k in seen or (classes and p["class"] not in classes):
+                    continue
+                seen.add(k)
+                s = copy.deepcopy(sc)
+                self.n += 1
+                s.update(id="%s-%d" % (origin, self.n), origin=origin, mode="delay",
+                         hold=[{"host": p["host"], "class": p["class"], "n": p["n"]}])
+                out.append(s)
+        return out
+
+    def rewinds(self, base_pairs, origin, kinds=("404", "401", "503")):
+        """The double fault on one blob: the closing upload PUT at the target fails without retry and the
+        rewind of the source (its second GET) fails too."""
+        out = []
+        for sc, tr in base_pairs:
+            poss = self.positions(tr)
+            gets = set(p["n"] for p in poss if p["class"] == "blob_get" and p["host"] in ("src", "both"))
+            for p in poss:
+                if p["class"] == "upload_put" and p["occ"] == 1 and p["n"] in gets:
+                    for k1 in kinds:
+                        k2 = self.rng.choice(list(kinds))
+                        s = copy.deepcopy(sc)
+                        self.n += 1
+                        s.update(id="%s-%d" % (origin, self.n), origin=origin, cancel202=1,
+                                 mode=self.rng.choice(["fifo", "random", "ungated"]), seed=self.rng.randrange(1 << 30),
+                                 faults=[{"host": p["host"], "class": "upload_put", "n": p["n"], "occ": 1, "kind": k1},
+                                         {"host": "src", "class": "blob_get", "n": p["n"], "occ": 2, "kind": k2}])
+                        out.append(s)
         return out
 
     # --------------------------------------------------------------- validation
@@ -668,11 +708,11 @@ def run_mc(ctx, runs):
 
 
 def defect_model_run(ctx):
-    """(D) as the code is written today (FixWaitErr = FALSE) on a layout target with cancellation:
-    TLC is expected to find the children-first violation of findings/C04-1; the repaired model
-    (C04_mc_layout.cfg) has to hold.  Neither outcome is a verdict about the code: the scenario class
-    is replayed on the real code by the sweep."""
-    r = ctx.tlc("ImageCopyMC", "C04_mc_defect.cfg", label="as written, layout target, cancel: expected counterexample",
+    """(D) with the wait loops as they were found before commit 7bc56ce (FixWaitErr = FALSE) on a layout
+    target with cancellation: TLC is expected to find the children-first violation of findings/C04-1 (this is
+    what the reverse patch seeded/fixrev-C04-1-* re-introduces); the default, repaired model (C04_mc_layout.cfg)
+    has to hold.  Neither outcome is a verdict about the code: the scenario class is run on the real code."""
+    r = ctx.tlc("ImageCopyMC", "C04_mc_defect.cfg", label="wait loops as found before 7bc56ce, layout target, cancel: expected counterexample",
                 allow_violation=True)
     return {"violated": r["violated"], "distinct": r["distinct"]}
 
